@@ -519,7 +519,8 @@ class Gen:
 
     # ------------------------------------------------------------ one template per remaining statement kind
     TEMPLATES = ["goto", "typeswitch", "select", "defer_order", "closure_capture", "method_value", "multi_assign",
-                 "shadow", "loop_switch_labels", "while_loops", "const_iota", "range_forms", "array_value", "if_init", "variadic"]
+                 "shadow", "loop_switch_labels", "while_loops", "const_iota", "range_forms", "array_value", "if_init", "variadic",
+                 "struct_literals"]
 
     def t_goto(self, sc, depth, ind):
         self.f("stmt:goto")
@@ -673,6 +674,35 @@ class Gen:
                 ind + "} else if %s := %s * 2; %s == 0 {" % (v, v, v), i2 + "fmt.Println(\"zero\", %s)" % v,
                 ind + "} else {", i2 + "fmt.Println(\"small\", %s)" % v, ind + "}"]
 
+    def t_struct_literals(self, sc, depth, ind):
+        """composite literals of the struct types whose field names differ only in the case of the first letter
+        (CPa: exported first, CPb: unexported first, CPw embeds both): keyed, unkeyed, elided, pointer, map"""
+        self.f("stmt:struct-literals")
+        r = self.r
+        t = self.pick(["CPa", "CPb"])
+        e = lambda: self.expr(INT, sc, 2)
+        keyed = [["value: %s" % e()], ["Value: %s" % e()], ["value: %s" % e(), "Value: %s" % e()], ["Value: %s" % e(), "value: %s" % e()], []]
+        lit = lambda: "{%s}" % ", ".join(self.pick(keyed))
+        v = self.fresh("sl")
+        forms = [
+            "%s := %s%s" % (v, t, lit()),
+            "%s := %s{%s, %s}" % (v, t, e(), e()),
+            "%s := &%s%s" % (v, t, lit()),
+            "%s := []%s{%s, %s, {%s, %s}}" % (v, t, lit(), lit(), e(), e()),
+            "%s := map[string]%s{\"k\": %s, \"j\": %s}" % (v, t, lit(), lit()),
+            "%s := [2]%s{%s}" % (v, t, lit()),
+            "%s := map[%s]int{%s: %s}" % (v, t, lit(), e()),
+            "%s := CPw{%s: CPa%s, %s: CPb%s, tag: %s}" % (v, "CPa", lit(), "CPb", lit(), self.expr(STR, sc, 2)),
+            "%s := CPw{CPa%s, CPb%s, %s, %s}" % (v, lit(), lit(), self.expr(STR, sc, 2), self.expr(STR, sc, 2)),
+            "%s := struct{ Key, key int }%s" % (v, self.pick(["{key: %s}" % e(), "{Key: %s}" % e(), "{key: %s, Key: %s}" % (e(), e())])),
+            "%s := []struct{ key, Key string }{{key: \"a\"}, {Key: \"b\"}, {\"c\", \"d\"}}" % v,
+        ]
+        out = []
+        for fm in ([self.pick(forms)] if r.below(2) else [self.pick(forms), self.pick(forms).replace(v + " :=", v + "b :=")]):
+            name = fm.split(" :=")[0]
+            out += [ind + fm, ind + "fmt.Printf(\"%%+v\\n\", %s)" % name]
+        return out
+
     def t_variadic(self, sc, depth, ind):
         self.f("stmt:variadic-and-multi-return")
         xs = self.expr(INTS, sc, 2)
@@ -759,6 +789,23 @@ func clip(s string) string {
 	return s
 }
 
+type CPa struct {
+	Value int
+	value int
+}
+
+type CPb struct {
+	value int
+	Value int
+}
+
+type CPw struct {
+	CPa
+	CPb
+	tag string
+	Tag string
+}
+
 func sum(xs ...int) (t int) {
 	for _, x := range xs {
 		t += x
@@ -836,9 +883,10 @@ func keys(m map[string]int) []string {
             main.append("\tvar zero int")
             main.append("\tfmt.Println(10 / zero)")
         main.append("}")
-        self.imports.add("sort")
-        imps = "import (\n" + "".join('\t"%s"\n' % i for i in sorted(self.imports)) + ")\n"
         body = "\n\n".join("\n".join(d) for d in decls + [main])
+        # imports = what the final text uses (an expression may have been generated and then not used)
+        used = ["fmt", "sort"] + [m for m in ("errors", "os", "strings") if (m + ".") in body]
+        imps = "import (\n" + "".join('\t"%s"\n' % i for i in sorted(used)) + ")\n"
         return "package main\n\n" + imps + "\n" + self.HELPERS + "\n" + body + "\n"
 
 
@@ -873,6 +921,44 @@ def switch_matrix_program():
     return "package main\n\nimport \"fmt\"\n\n" + "\n\n".join(funcs) + "\n\nfunc main() {\n" + "\n".join(calls) + "\n}\n", specs
 
 
+def struct_literal_program():
+    """every composite-literal form over struct types whose field names differ only in the case of the first
+    letter, in both declaration orders, with embedded structs and promoted fields; every field is printed"""
+    types = {
+        "A": "Value int\n\tvalue int", "B": "value int\n\tValue int",
+        "C": "X, x string\n\tY int\n\ty bool", "D": "name string\n\tName string\n\tNAME string",
+        "E": "Id int\n\tid int", "F": "id, Id, iD int",
+    }
+    src = ["package main\n\nimport \"fmt\"\n"]
+    for n, f in types.items():
+        src.append("type %s struct {\n\t%s\n}\n" % (n, f))
+    src.append("type W struct {\n\tE\n\tA\n\ttag string\n\tTag string\n}\n")
+    src.append("type V struct {\n\tB\n\tF\n\tItems []A\n\titems []B\n\tByKey map[string]E\n}\n")
+    src.append("var pkgA = A{value: 7}\n\nvar pkgBs = []B{{value: 1}, {Value: 2}}\n")
+    src.append("func mk(v int) A {\n\treturn A{value: v}\n}\n\nfunc mkp(v int) *B {\n\treturn &B{value: v, Value: -v}\n}\n")
+    src.append("func show(xs ...interface{}) {\n\tfor _, x := range xs {\n\t\tfmt.Printf(\"%+v\\n\", x)\n\t}\n}\n")
+    body = []
+    for t, lo, hi in (("A", "value", "Value"), ("B", "value", "Value"), ("E", "id", "Id")):
+        body.append("show(%s{%s: 1}, %s{%s: 2}, %s{%s: 1, %s: 2}, %s{%s: 2, %s: 1}, %s{3, 4}, %s{})" % (t, lo, t, hi, t, lo, hi, t, hi, lo, t, t))
+        body.append("show(&%s{%s: 5}, &%s{%s: 6}, []%s{{%s: 1}, {%s: 2}, {1, 2}, {}}, [2]%s{{%s: 1}}, [...]%s{1: {%s: 9}})" % (t, lo, t, hi, t, lo, hi, t, lo, t, hi))
+        body.append("show(map[string]%s{\"k\": {%s: 1}, \"j\": {%s: 2}}, map[%s]int{{%s: 1}: 7, {%s: 1}: 8})" % (t, lo, hi, t, lo, hi))
+        body.append("ps%s := []*%s{{%s: 1}, {%s: 2}}\n\tshow(*ps%s[0], *ps%s[1], len(ps%s))" % (t, t, lo, hi, t, t, t))
+        body.append("mp%s := map[string]*%s{\"p\": {%s: 3}}\n\tshow(*mp%s[\"p\"])" % (t, t, lo, t))
+    body.append("show(C{x: \"lo\"}, C{X: \"hi\"}, C{x: \"lo\", X: \"hi\", y: true, Y: 3}, C{\"a\", \"b\", 1, true})")
+    body.append("show(D{name: \"a\"}, D{Name: \"b\"}, D{NAME: \"c\"}, D{name: \"a\", Name: \"b\", NAME: \"c\"}, D{NAME: \"c\", name: \"a\"})")
+    body.append("show(F{id: 1}, F{Id: 2}, F{iD: 3}, F{iD: 3, Id: 2, id: 1})")
+    body.append("show(W{E: E{id: 1}, A: A{value: 2}, tag: \"t\"}, W{E: E{Id: 1, id: 2}, Tag: \"T\"}, W{E{1, 2}, A{3, 4}, \"t\", \"T\"})")
+    body.append("w := W{E: E{Id: 1, id: 2}, A: A{Value: 3, value: 4}, tag: \"t\", Tag: \"T\"}\n\tshow(w, w.Id, w.Value, w.E.Id, w.A.Value, w.Tag)")
+    body.append("show(V{B: B{value: 1}, F: F{iD: 2}, Items: []A{{value: 3}, {Value: 4}}, items: []B{{value: 5}}, ByKey: map[string]E{\"e\": {id: 6}}})")
+    body.append("show(struct{ V, v int }{v: 1}, struct{ v, V int }{v: 1}, []struct{ Key, key string }{{key: \"a\"}, {Key: \"b\"}})")
+    body.append("show(pkgA, pkgBs, mk(8), *mkp(9))")
+    body.append("a := A{}\n\ta = A{value: 11}\n\tb := &B{}\n\t*b = B{value: 12}\n\tshow(a, *b)")
+    body.append("var arr [2]A\n\tarr[1] = A{value: 13}\n\tm := map[string][]A{\"x\": {{value: 14}, {Value: 15}}}\n\tshow(arr, m)")
+    body.append("func(p A, q *B) {\n\t\tshow(p, *q)\n\t}(A{value: 16}, &B{value: 17})")
+    src.append("func main() {\n\t" + "\n\t".join(body) + "\n}\n")
+    return "\n".join(src)
+
+
 def statement_kinds_program(rng):
     """one program that contains every statement-kind template once (plus both switch kinds with default first,
     in the middle and last): the statement kinds are covered on every run whatever the seed"""
@@ -899,9 +985,9 @@ def statement_kinds_program(rng):
     for (name, typ) in sc.own:
         main.append("\tfmt.Println(%s)" % name)
     main.append("}")
-    g.imports.add("sort")
-    imps = "import (\n" + "".join('\t"%s"\n' % i for i in sorted(g.imports)) + ")\n"
     body = "\n\n".join("\n".join(d) for d in decls + [main])
+    used = ["fmt", "sort"] + [m for m in ("errors", "os", "strings") if (m + ".") in body]
+    imps = "import (\n" + "".join('\t"%s"\n' % i for i in sorted(used)) + ")\n"
     return "package main\n\n" + imps + "\n" + g.HELPERS + "\n" + body + "\n", g.feat
 
 
